@@ -40,13 +40,42 @@ pub fn run(case: &Sx, out: &mut Vec<Ev>) {
             3 => acpi_tables::tpm2::TpmServer1_2::len(),
             _ => panic!("harness: no such size function"),
         } as u64)),
+        4 => {
+            let t = String::from_utf8(o[1].bytes()).expect("harness: field name must be UTF-8");
+            out.push(Ev::Bytes(crate::tcommon::serialise(&acpi_tables::aml::Name::new_field_name(&t))));
+        }
+        5 => {
+            let t: &'static str = Box::leak(String::from_utf8(o[1].bytes()).expect("harness: ISA string must be UTF-8").into_boxed_str());
+            out.push(Ev::Bytes(crate::tcommon::serialise(&acpi_tables::rhct::IsaStringNode::new(t))));
+        }
         _ => panic!("harness: bad misc op"),
     }
+}
+
+/// a byte string that always prints as a list (the `#hex` abbreviation parses back to the same list)
+fn blist(b: &[u8]) -> Sx {
+    bytes(b)
 }
 
 pub fn gen(tier: &str, rng: &mut Rng, emit: &mut Emit) {
     for w in 0..4 {
         emit.case(32, l(vec![a(3), a(w)]));
+    }
+    // field names: well-formed NameSegs and arbitrary ASCII text of length 0..8
+    const SEG: &[u8] = b"ABCDEFGHIJKLMNOPQRSTUVWXYZ_0123456789";
+    for _ in 0..(if tier == "thorough" { 5000 } else { 300 }) {
+        let t: Vec<u8> = if rng.chance(2, 3) {
+            (0..4).map(|i| if i == 0 { SEG[rng.below(27) as usize] } else { *rng.pick(SEG) }).collect()
+        } else {
+            let n = rng.below(9);
+            (0..n).map(|_| rng.range(1, 127) as u8).collect()
+        };
+        emit.case(32, l(vec![a(4), blist(&t)]));
+    }
+    // stand-alone ISA string nodes: lengths 0..40 (both parities), and around the 16-bit node length
+    for n in (0usize..=40).chain([255, 256, 65_524, 65_525, 65_526, 65_527, 65_528, 65_540]) {
+        let t: Vec<u8> = (0..n).map(|_| *rng.pick(b"rv64imafdc_zicsr")).collect();
+        emit.case(32, l(vec![a(5), blist(&t)]));
     }
     let n = if tier == "thorough" { 20_000 } else { 600 };
     for k in [1u64, 2, 4, 8, 16, 3] {
